@@ -232,5 +232,19 @@ def inapplicable_call(rng, wm, dom_m, st, members):
                 except (model.Outside, model.Inconsistent):
                     continue
         if cands:
+            # prefer a call that the OTHER members would enable (inapplicable now, applicable once they have been
+            # applied): a refusal test on the accumulated state instead of the current one lets exactly these through
+            others = [m for i, m in enumerate(members) if i != pos]
+            st_after = magen.seq_apply(wm, dom_m, st, others) if others else None
+            enabled = []
+            if st_after is not None:
+                for an, call in cands:
+                    try:
+                        if model.successor(wm, dom_m.actions[an], call, st_after) is not None:
+                            enabled.append((an, call))
+                    except (model.Outside, model.Inconsistent):
+                        pass
+            if enabled and rng.random() < 0.8:
+                return pos, rng.choice(enabled)
             return pos, rng.choice(cands)
     return None
